@@ -13,7 +13,7 @@ def parseLoc : String → Option Loc
 
 def parseOp : String → Option Op
   | "tell" => some .tell | "tellv" => some .tellValue | "ask" => some .ask | "kill" => some .kill
-  | "poison" => some .poison | "watch" => some .watch | "unwatch" => some .unwatch | "ping" => some .ping
+  | "poison" => some .poison | "watch" => some .watch | "unwatch" => some .unwatch | "watch-twin" => some .watchTwin | "unwatch-twin" => some .unwatchTwin | "ping" => some .ping
   | "pipe-ok" => some .pipeOk | "pipe-fail" => some .pipeFail
   | _ => none
 
